@@ -333,6 +333,16 @@ def _election_step_edges(ctx, f):
                 if v and len(g.ifs) == 1 and qp(g.ifs[0], v, f, False) and not _has_other_conjunct(g.ifs[0]) \
                         and body_always_calls(ctx, f, n.ast, ('elect',)):
                     edges.add((n, False))
+            # E1': for c in C.hopeful(..): if QUOTA(c): c.elect(..)      (the same step written as loop + if; also the normal form)
+            if is_selector_call(ctx, f, it, 'hopeful') and len(n.ast.body) == 1 and isinstance(n.ast.body[0], ast.If) and not n.ast.body[0].orelse:
+                cond = n.ast.body[0].test
+                v = n.ast.target.id
+                inner = n.ast.body[0]
+                elects = [x for x in inner.body if isinstance(x, ast.Expr) and isinstance(x.value, ast.Call) and isinstance(x.value.func, ast.Attribute)
+                          and x.value.func.attr == 'elect' and isinstance(x.value.func.value, ast.Name) and x.value.func.value.id == v]
+                if qp(cond, v, f, False) and not _has_other_conjunct(cond) and elects and not any(
+                        isinstance(x, (ast.Break, ast.Continue, ast.Return)) for b_ in inner.body for x in ast.walk(b_)):
+                    edges.add((n, False))
         # E2: `if X:` where X = [c for c in C.hopeful(..) if QUOTA(c)]  -> False edge
         if n.kind == 'test' and isinstance(n.ast, ast.If) and isinstance(n.ast.test, ast.Name):
             rd = reaching_defs(cfg, n.ast.test.id, n)
